@@ -1,6 +1,6 @@
 (* C06 — room limits are respected by every reported solution.  Property theorems only. *)
 From Coq Require Import List ZArith Lia Bool Arith Permutation.
-Require Import HP1 Cao1 Rooms Spec Node RoomThms NodeThms Solve F32.
+Require Import HP1 Cao1 Rooms Spec Node RoomThms NodeThms Solve F32 HousedAlloc.
 Require EngP2.
 Import ListNotations.
 Open Scope nat_scope.
@@ -24,6 +24,14 @@ Proof.
   apply (full_feasible_housed courses parts esize shrinkf rs nd a _ Hrun).
 Qed.
 
+(* Housed means what the property says: there is an allocation of pairwise distinct rooms of the given list in which every course that
+   needs a room (effective size > 0) gets one that is large enough *)
+Theorem C06_allocation : forall sizes rooms, Housed sizes rooms ->
+  exists alloc : nat -> nat,
+    (forall c, c < length sizes -> 0 < nth c sizes 0 -> alloc c < length rooms /\ nth c sizes 0 <= nth (alloc c) rooms 0) /\
+    (forall c c', c < length sizes -> c' < length sizes -> 0 < nth c sizes 0 -> 0 < nth c' sizes 0 -> alloc c = alloc c' -> c = c').
+Proof. exact housed_allocation. Qed.
+
 (* `desc` really is the descending sort: a permutation of its argument in non-increasing order *)
 Theorem C06_desc_is_sort : forall l, Permutation (desc l) l /\ forall i j, i <= j -> j < length l -> nth j (desc l) 0 <= nth i (desc l) 0.
 Proof. intros l. split; [apply desc_perm|apply desc_sorted]. Qed.
@@ -42,7 +50,8 @@ Proof.
   intros H. apply housedb_spec in H. vm_compute in H. discriminate.
 Qed.
 
-Check C06_node. Check C06. Check C06_desc_is_sort. Check C06_checker_sound.
+Check C06_allocation. Check C06_node. Check C06. Check C06_desc_is_sort. Check C06_checker_sound.
+Print Assumptions C06_allocation.
 Print Assumptions C06_node.
 Print Assumptions C06.
 Print Assumptions C06_desc_is_sort.
